@@ -219,6 +219,33 @@ example : everyIterationPays attemptStarts budgetPaid
       (.alt (.seq (.ev (.act ⟨.brF, "await request.wait_for_response(protocol)"⟩)) (.ev (.act ⟨.set, "retry_count"⟩)))
             (.ev (.act ⟨.brT, "request.next == 0"⟩))))) = false := by decide +kernel
 
+/-- the two requests name the one connection lock differently (`self.Lock` inside the protocol, `protocol.Lock` from the structure) -/
+def lockAcq (a : A) : Bool := a.kind == .acquired && (a.name == "self.Lock" || a.name == "protocol.Lock")
+def lockRel (a : A) : Bool := a.kind == .release && (a.name == "self.Lock" || a.name == "protocol.Lock")
+
+theorem both_gets_send_under_the_lock : alwaysHeld lockAcq lockRel isSend getSk = true ∧ alwaysHeld lockAcq lockRel isSend structGetSk = true := by
+  decide +kernel
+
+/-- **one request in flight, for ANY number of concurrent callers of either request and ANY interleaving**: whenever the tasks run
+traces of `protocol.get` / `struct.get` and the lock is a lock (it is acquired only while nobody holds it), every transmission in the
+global trace is made by the task that holds the connection lock at that moment (`lock_mutex`) -/
+theorem one_request_in_flight (task : Nat → Sk) (h : ∀ j, task j = getSk ∨ task j = structGetSk)
+    (locals : Nat → List Ev) (hrun : ∀ j, ∃ o, Run (task j) (locals j) o) (g : List (Nat × Ev)) (hi : Inter locals g)
+    (hl : LockRespecting lockAcq lockRel none g) : InnerByHolder lockAcq lockRel isSend none g :=
+  lock_mutex_of_skeletons lockAcq lockRel isSend task
+    (fun j => by rcases h j with e | e <;> rw [e] <;> first | exact both_gets_send_under_the_lock.1 | exact both_gets_send_under_the_lock.2)
+    locals hrun g hi hl
+
+/-- **who transmits at all**: among all 58 coroutines of the source tree exactly four call `queue_send` - the two requests above
+(always under the lock), the discovery broadcast (before there is a connection) and the partial-update handler (its STATQ is an
+acknowledgement, not a request, and is not retried).  Every REQUEST of a connection therefore goes through one of the two gets -/
+theorem transmitting_coroutines :
+    (all.filter fun p => (actions .call p.2).contains "queue_send").map (fun p => (p.1, alwaysHeld lockAcq lockRel isSend p.2)) =
+      [("async_locator.py:GeckoAsyncLocator._broadcast_loop", false),
+       ("driver/async_spastruct.py:GeckoAsyncStructure.get", true),
+       ("driver/async_udp_protocol.py:GeckoAsyncUdpProtocol.get", true),
+       ("driver/protocol/statusblock.py:GeckoAsyncPartialStatusBlockProtocolHandler.async_handle", false)] := by decide +kernel
+
 end LockShape
 
 end GeckoModel.C06
